@@ -15,6 +15,7 @@ pub fn gens() -> Vec<Gen> {
         Gen { name: "c01.catalog", prop: "C01", tags: &["c01", "roundtrip", "view"], cases: cases_catalog, check },
         Gen { name: "c01.enum", prop: "C01", tags: &["enum"], cases: cases_enum, check },
         Gen { name: "c01.random", prop: "C01", tags: &["random"], cases: cases_random, check },
+        Gen { name: "c01.f64_bits", prop: "C01", tags: &["f64", "float"], cases: cases_f64, check: check_f64 },
     ]
 }
 
@@ -132,4 +133,53 @@ pub fn check(case: &J) -> Verdict {
         }
         o => fail(format!("SDJWTVerifier::new on an honest presentation -> {}", o.brief()), "accepted, with the selected view of the claims"),
     }
+}
+
+/// f64 claim values given by bit pattern (a JSON number in the case description would
+/// itself go through a decimal parse). `{"$f64bits": "<u64>"}` stands for the number.
+fn cases_f64(rng: &mut Rng, sink: &mut dyn FnMut(J) -> bool) {
+    let mut n = 0usize;
+    let mut fixed: Vec<u64> = vec![
+        1.8781959765316678e19f64.to_bits(), 0.1f64.to_bits(), (0.1f64 + 0.2).to_bits(), f64::MAX.to_bits(), f64::MIN_POSITIVE.to_bits(), 5e-324f64.to_bits(),
+        (1.0f64 / 3.0).to_bits(), std::f64::consts::PI.to_bits(), 1e23f64.to_bits(), 9007199254740993.0f64.to_bits(), 123456789.12345678f64.to_bits(),
+    ];
+    for _ in 0..400 {
+        fixed.push(rng.next());
+    }
+    for bits in fixed {
+        if !f64::from_bits(bits).is_finite() {
+            continue;
+        }
+        n += 1;
+        let b = json!({"$f64bits": bits.to_string()});
+        let (claims, strategy, sel) = match n % 3 {
+            0 => (json!({"iss": "i", "exp": crate::util::FAR_EXP, "x": b}), Strategy::NoSD, json!({})),
+            1 => (json!({"iss": "i", "exp": crate::util::FAR_EXP, "x": b}), Strategy::TopLevel, json!({"x": true})),
+            _ => (json!({"iss": "i", "exp": crate::util::FAR_EXP, "o": {"l": [b]}}), Strategy::AllLevels, json!({"o": {"l": [true]}})),
+        };
+        let mut case = Cfg::simple(claims, strategy).variant(n).to_json();
+        case["selection"] = sel;
+        if !sink(case) {
+            return;
+        }
+    }
+}
+
+fn expand_f64(v: &J) -> J {
+    match v {
+        J::Object(o) => {
+            if let (1, Some(bits)) = (o.len(), o.get("$f64bits").and_then(|b| b.as_str()).and_then(|b| b.parse::<u64>().ok())) {
+                return json!(f64::from_bits(bits));
+            }
+            J::Object(o.iter().map(|(k, c)| (k.clone(), expand_f64(c))).collect())
+        }
+        J::Array(a) => J::Array(a.iter().map(expand_f64).collect()),
+        other => other.clone(),
+    }
+}
+
+fn check_f64(case: &J) -> Verdict {
+    let mut c = case.clone();
+    c["claims"] = expand_f64(&case["claims"]);
+    check(&c)
 }
